@@ -129,10 +129,13 @@ def algebra_window(acc, impl, res, start, end, prop):
         k4, j4 = call(impl, P.dateToIdx, fp, d)
         if (k3, d3) != ("ok", d) or (k4, j4) != ("ok", i):
             acc.violation(prop, "project-conversion-roundtrip", dict(impl=impl, res=res, i=i, idxToDate=(k3, d3), dateToIdx=(k4, j4)), [], None)
-        # floor-inverse on instants inside the slot
-        for off in (1, res // 2, res - 1):
+        # floor-inverse on instants inside the slot, incl. sub-second instants right before the next boundary
+        # (seeded change C17-b rounded the elapsed time to whole seconds)
+        for off in (1, res // 2, res - 1, 0.4, res - 0.5, res - 0.1, res - 0.000001):
             if off <= 0 or off >= res:
                 continue
+            if isinstance(off, float) and i % 7 and i not in (0, size - 2):
+                continue      # fractional probes on every 7th slot and at both ends
             t = d + timedelta(seconds=off)
             if t > end:
                 continue
@@ -155,7 +158,8 @@ def algebra_window(acc, impl, res, start, end, prop):
             acc.violation(prop, "clamped-index-wrong", dict(impl=impl, res=res, i=i, got=(k, d), want=want), [], None)
     # out-of-range instants
     last = start + timedelta(seconds=(size - 1) * res)
-    for t, where in ((start - timedelta(seconds=1), "before"), (start - timedelta(seconds=res - 1), "before"), (start - timedelta(seconds=3 * res), "before"),
+    for t, where in ((start - timedelta(seconds=1), "before"), (start - timedelta(seconds=0.3), "before"), (start - timedelta(microseconds=1), "before"),
+                     (start - timedelta(seconds=res - 1), "before"), (start - timedelta(seconds=3 * res), "before"),
                      (last + timedelta(seconds=res), "after"), (last + timedelta(seconds=5 * res + 1), "after")):
         k, d = call(impl, sb.dateToIdx, t, False)
         n_eval += 1
